@@ -14,6 +14,7 @@ case "$NAME" in
   *) SRC="$VERIF/harness/$NAME.cpp" ;;
 esac
 case "$FLAVOUR" in tls*) EXTRA="-lssl -lcrypto" ;; esac
+case "$NAME" in addr) EXTRA="$EXTRA -ldl" ;; esac
 if [ ! -x "$EXE" ]; then
   exec 9>"$LIBDIR/.lock-$NAME"; flock 9
   if [ ! -x "$EXE" ]; then
